@@ -2508,10 +2508,18 @@ def r17(ctx, repo):
             defs = [n for n in walk(wr) if isinstance(n, ast.Assign)
                     and any(isinstance(t, ast.Name) and t.id == node.id
                             for t in n.targets)]
-            if len(defs) > 1 and all(
-                    is_counter(d.value) or any(is_counter(t)
-                                               for t in d.targets)
-                    for d in defs):
+            def is_count(d):
+                if is_counter(d.value) or any(is_counter(t)
+                                              for t in d.targets):
+                    return True
+                # `cur = len(grp)` stored into the cache in the same block
+                sibs = [x for fld in ("body", "orelse", "finalbody")
+                        for x in getattr(d.parent, fld, [])
+                        if isinstance(x, ast.Assign)]
+                return any(any(is_counter(t) for t in x.targets)
+                           and isinstance(x.value, ast.Name)
+                           and x.value.id == node.id for x in sibs)
+            if len(defs) > 1 and all(is_count(d) for d in defs):
                 return S("cur")
         return None
     sym = Sym(wr, {"data"}, S("n"), special)
@@ -2587,9 +2595,19 @@ def r17(ctx, repo):
                 and is_counter(body[0].value) \
                 and len(par.parent.handlers) == 1
         return False
-    ok = len(inits) == 1 and isinstance(inits[0].value, ast.Call) \
-        and call_name(inits[0].value) == "len" \
-        and txt(inits[0].value.args[0]) == grp \
+    init_val = inits[0].value if inits else None
+    if isinstance(init_val, ast.Name):
+        # `cur = len(grp); cache[key] = cur` – value bound in the same block
+        sibs = [x for fld in ("body", "orelse", "finalbody")
+                for x in getattr(inits[0].parent, fld, [])
+                if isinstance(x, ast.Assign) and x.lineno < inits[0].lineno
+                and any(isinstance(t, ast.Name) and t.id == init_val.id
+                        for t in x.targets)]
+        if len(sibs) == 1:
+            init_val = sibs[0].value
+    ok = len(inits) == 1 and isinstance(init_val, ast.Call) \
+        and call_name(init_val) == "len" \
+        and txt(init_val.args[0]) == grp \
         and when_absent(inits[0]) \
         and inits[0].lineno < lp.lineno
     ctx.ob("R1.7", ok, "an unknown group starts at its stored size" if ok
@@ -3433,6 +3451,26 @@ def _metadata_skip_equal(src):
     return _metadata_single_store(src, skip=True)
 
 
+def _ragged_try_except_two_steps(src):
+    old = ("        if grp not in self._group_sizes:\n"
+           "            self._group_sizes[grp] = len(grp)\n"
+           "        curid = self._group_sizes[grp]\n")
+    if src.count(old) != 1:
+        return src
+    return src.replace(
+        old, "        try:\n"
+        "            curid = self._group_sizes[grp]\n"
+        "        except KeyError:\n"
+        "            curid = len(grp)\n"
+        "            self._group_sizes[grp] = curid\n").replace(
+        '"{}".format(curid + ii)', 'f"{curid + ii}"')
+
+
+def _ragged_try_except_two_steps_zero(src):
+    return _ragged_try_except_two_steps(src).replace(
+        "            curid = len(grp)\n", "            curid = 0\n")
+
+
 MUTANTS = [
     # R1.1
     ("ndarray: offset read after the resize", WR,
@@ -3575,6 +3613,8 @@ MUTANTS = [
       '        elif feat.startswith("frame"):\n'), "R1.5"),
     ("metadata equal to the stored value are not rewritten", WR,
      _metadata_skip_equal, "R1.A"),
+    ("try/except get-or-create starts an unknown group at 0", WR,
+     _ragged_try_except_two_steps_zero, "R1.7"),
     ("ragged entries enumerated from count + 1", WR,
      _ragged_try_except_late, "R1.7"),
     ("lines enumerated from 0 instead of the line offset", WR,
@@ -3731,6 +3771,8 @@ TWINS = [
     ("frame dtype chosen by equality", WR,
      ("        elif feat in FEATURES_UINT64:\n",
       '        elif feat == "frame":\n')),
+    ("ragged counter get-or-create by try/except, two statements", WR,
+     _ragged_try_except_two_steps),
 ]
 
 # mutants that re-introduce the repaired defects (apply to the fixed tree)
